@@ -1,5 +1,5 @@
 From Coq Require Import PrimFloat ZArith List Bool.
-From MV Require Import Ops FloatFun FInst Vec Cplx Mat Hop Hopper Propagate Traj Cumulative R02.
+From MV Require Import Ops FloatFun FInst Vec Cplx Mat Hop Hopper Propagate Traj Cumulative Afssh R02.
 Import ListNotations.
 Open Scope float_scope.
 (* n, masses, dt, poisson, zeta, e0 (H,tau,force), e1, eigh(W_impl), state before (x, v, rho, active, time),
@@ -48,3 +48,47 @@ Definition chkC (c : caseC) : bool :=
   && Nat.eqb (pact s') ia && fclose 0 0 (ptime s') it
   && fclose (0x1p-40 * (ihop + 0x1p-40)) 0x1p-30 hp ihop
   && fclose 0x1p-44 0x1p-44 (acc c') pc1 && fclose 0 0 (zeta c') zc1 && fclose_l 0 0 (zlist c') zl1.
+
+(* the pass with electronic_integration = "linear-rk4": same case layout, lam/Cm = eigh(last_H) (real eigenvectors) *)
+Definition chkTr (c : caseT) : bool :=
+  let '(n, m, dt, pois, zeta, (H0, t0, F0), (H1, t1, F1), eigs, Cm, (x, v, rho, a, t), (ix, iv, irho, ia, it, ihop)) := c in
+  let '(s', _, hp, _) := step_rk4 FOps n m dt 0x1.999999999999ap-4 4 pois zeta (mkElec H0 t0 F0) (mkElec H1 t1 F1) eigs (map (map fst) Cm) (mkT x v rho a t) in
+  fclose_l (0x1p-44 * lmaxa ix) 0 (px s') ix
+  && fclose_l (0x1p-36 * lmaxa iv) 0 (pv s') iv
+  && cclose_ll 0x1p-34 (prho s') irho
+  && Nat.eqb (pact s') ia && fclose 0 0 (ptime s') it
+  && fclose (0x1p-30 * (ihop + 0x1p-40)) 0x1p-30 hp ihop.
+(* n, masses, dt, poisson, zeta, eprev, e0, e1 (H,tau,force), fm1 per dimension, eigh(W_prev), eigh(W), uniforms,
+   before: (x, v, rho, active, time), lastv, delR per dim, delP per dim;
+   impl after: (x, v, rho, active, time), delR per dim, delP per dim, collapsed? *)
+Definition caseA : Type :=
+  (nat * list float * float * bool * float * elecL * elecL * elecL * list (list (list float))
+   * (list float * cmat) * (list float * cmat) * list float
+   * ((list float * list float * cmat * nat * float) * list float * list cmat * list cmat)
+   * ((list float * list float * cmat * nat * float) * list cmat * list cmat * bool))%type.
+Fixpoint cclose_lll (tol : float) (a b : list cmat) : bool :=
+  match a, b with
+  | [], [] => true
+  | x :: a', y :: b' => cclose_ll tol x y && cclose_lll tol a' b'
+  | _, _ => false
+  end.
+Definition cmaxabs_l (l : list cmat) : float := fold_right (fun m acc => fmaxabs (cmaxabs m) acc) 0x1p-1000 l.
+(* residual of an eigen-decomposition oracle: W co = co diag(eps) *)
+Definition eig_ok (n : nat) (W : cmat) (eps : list float) (co : cmat) : bool :=
+  let lhs := mmul FOps n W co in
+  let rhs := mmk n n (fun i j => cscale FOps (nth j eps 0) (mget FOps co i j)) in
+  cclose_ll (0x1p-36 * (cmaxabs W + 0x1p-1000)) lhs rhs.
+Definition chkA (c : caseA) : bool :=
+  let '(n, m, dt, pois, zeta, (Hp, tp, Fp), (H0, t0, F0), (H1, t1, F1), fm1, (epsR, coR), (lam, Cm), etas,
+        ((x, v, rho, a, t), lastv, dR, dP), ((ix, iv, irho, ia, it), idR, idP, icoll)) := c in
+  let s := mkA (mkT x v rho a t) lastv dR dP in
+  let '(s', _, coll) := step_af FOps n m dt pois zeta (mkElec Hp tp Fp) (mkElec H0 t0 F0) (mkElec H1 t1 F1) fm1 epsR coR lam Cm etas s in
+  let Wprev := Wmid FOps n Hp H0 tp t0 v lastv in
+  eig_ok n Wprev epsR coR
+  && fclose_l (0x1p-44 * lmaxa ix) 0 (px (ab s')) ix
+  && fclose_l (0x1p-36 * lmaxa iv) 0 (pv (ab s')) iv
+  && cclose_ll 0x1p-38 (prho (ab s')) irho
+  && Nat.eqb (pact (ab s')) ia && fclose 0 0 (ptime (ab s')) it
+  && cclose_lll (0x1p-36 * (cmaxabs_l idR + 0x1p-60)) (adelR s') idR
+  && cclose_lll (0x1p-36 * (cmaxabs_l idP + 0x1p-60)) (adelP s') idP
+  && Bool.eqb coll icoll.
